@@ -152,3 +152,69 @@ MUTANTS += [
     M('benign-param-reorder', 'C09', LDPCAPI, '	if (params->N1 < 3)', '	if (3 > params->N1)', expect=0),
     M('benign-seed-guard-form', 'C09', LDPCAPI, '	if (params->prng_seed < 1 || params->prng_seed > 0x7FFFFFFE)', '	if (params->prng_seed <= 0 || params->prng_seed >= 0x7FFFFFFF)', expect=0),
 ]
+
+GFC = 'src/lib_stable/reed-solomon_gf_2_m/galois_field_codes_utils/of_galois_field_code.c'
+RS8C = 'src/lib_stable/reed-solomon_gf_2_8/of_reed-solomon_gf_2_8.c'
+MUTANTS += [
+    # ---- C08
+    M('own-ldpc-index-rows-not-freed', 'C08', LDPCAPI, '''	if (ofcb->index_rows != NULL)
+	{
+		of_free (ofcb->index_rows);
+		ofcb->index_rows = NULL;
+	}''', '''	if (ofcb->index_rows != NULL)
+	{
+		ofcb->index_rows = NULL;
+	}''', 'R-OWN-FIELD'),
+    M('own-ldpc-matrix-struct-not-freed', 'C08', LDPCAPI, '''		of_mod2sparse_free(ofcb->pchk_matrix);
+		of_free (ofcb->pchk_matrix);
+		ofcb->pchk_matrix  = NULL;''', '''		of_mod2sparse_free(ofcb->pchk_matrix);
+		ofcb->pchk_matrix  = NULL;''', 'R-OWN-FIELD'),
+    M('own-rs-rs_cb-not-freed', 'C08', RSAPI, '''		of_rs_free (ofcb->rs_cb);
+		ofcb->rs_cb = NULL;
+	}
+#ifdef OF_USE_DECODER
+	if (ofcb->available_symbols_tab != NULL)''', '''		ofcb->rs_cb = NULL;
+	}
+#ifdef OF_USE_DECODER
+	if (ofcb->available_symbols_tab != NULL)''', 'R-OWN-FIELD'),
+    M('own-rs2m-dec-matrix-release', 'C08', GFC, '''	 if (ofcb->dec_matrix != NULL)
+	 {
+		 of_free(ofcb->dec_matrix);''', '''	 if (ofcb->dec_matrix != NULL && ofcb->enc_matrix == NULL)
+	 {
+		 of_free(ofcb->dec_matrix);''', 'R-OWN-FIELD'),
+    M('own-ldpc-sweep-from-zero', 'C08', LDPCAPI, '		for (i = ofcb->nb_source_symbols; i < ofcb->nb_total_symbols; i++)', '		for (i = 0; i < ofcb->nb_total_symbols; i++)', 'R-OWN-ELEM'),
+    M('own-ldpc-sweep-short', 'C08', LDPCAPI, '			for (i = 0; i < ofcb->nb_repair_symbols; i++)\n			{\n				if (ofcb->tab_const_term_of_equ[i] != NULL)',
+      '			for (i = 0; i + 1 < ofcb->nb_repair_symbols; i++)\n			{\n				if (ofcb->tab_const_term_of_equ[i] != NULL)', 'R-OWN-ELEM'),
+    M('own-ml-early-return', 'C08', MLDEC, '''		OF_TRACE_LVL(0,("Solve dense system failed\\n"))
+		goto failure;''', '''		OF_TRACE_LVL(0,("Solve dense system failed\\n"))
+		return OF_STATUS_FAILURE;''', 'R-OWN-LOCAL'),
+    M('own-rs-large-buf-leak', 'C08', RSAPI, '	of_free(large_buf);\n	OF_EXIT_FUNCTION\n	return OF_STATUS_OK;', '	OF_EXIT_FUNCTION\n	return OF_STATUS_OK;', 'R-OWN-LOCAL'),
+    M('own-ml-permutation-leak', 'C08', MLDEC, '	of_free (permutation_array);\n	permutation_array = NULL;\n	OF_TRACE_LVL (1, ("%s: ofcb->remain_rows=', '	permutation_array = NULL;\n	OF_TRACE_LVL (1, ("%s: ofcb->remain_rows=', 'R-OWN-LOCAL'),
+    M('own-rs2m-decmatrix-dangling', 'C08', GFC, '	of_free(ofcb->dec_matrix);\n	ofcb->dec_matrix = NULL;\n	OF_EXIT_FUNCTION\n	return OF_STATUS_OK;', '	of_free(ofcb->dec_matrix);\n	OF_EXIT_FUNCTION\n	return OF_STATUS_OK;', 'R-DANGLING'),
+    M('own-it-double-free', 'C08', ITDEC, '						// we don\'t need the const_term buffer any more, so free it.\n						of_free (const_term);',
+      '						// we don\'t need the const_term buffer any more, so free it.\n						of_free (const_term);\n						of_free (const_term);', 'R-UAF'),
+    M('own-rs-use-after-free', 'C08', RSAPI, '	of_rs_free (ofcb->rs_cb);\n	ofcb->rs_cb = NULL;\n	ofcb->decoding_finished = true;', '	of_rs_free (ofcb->rs_cb);\n	ofcb->decoding_finished = true;', 'R-DANGLING'),
+    M('benign-own-free-order', 'C08', RSAPI, '''	if (ofcb->rs_cb != NULL)
+	{
+		of_rs_free (ofcb->rs_cb);
+		ofcb->rs_cb = NULL;
+	}
+#ifdef OF_USE_DECODER
+	if (ofcb->available_symbols_tab != NULL)
+	{
+		of_free(ofcb->available_symbols_tab);
+		ofcb->available_symbols_tab = NULL;
+	}
+#endif  /* OF_USE_DECODER */''', '''#ifdef OF_USE_DECODER
+	if (ofcb->available_symbols_tab != NULL)
+	{
+		of_free(ofcb->available_symbols_tab);
+		ofcb->available_symbols_tab = NULL;
+	}
+#endif  /* OF_USE_DECODER */
+	if (ofcb->rs_cb != NULL)
+	{
+		of_rs_free (ofcb->rs_cb);
+		ofcb->rs_cb = NULL;
+	}''', expect=0),
+]
